@@ -36,7 +36,7 @@ def plan(tier):
     # the locking discipline is what Agreement rests on: the directed lock / unlock / relock / stale-polka schedules
     # (tm_scenarios.py; they reach situations the bounded exhaustive configuration and short simulations rarely reach)
     p.scenarios = ['lock_unlock', 'relock_and_pol_proposal', 'locked_without_proposal', 'stale_polka_must_not_unlock',
-                   'lock_survives_restart']
+                   'lock_survives_restart', 'restart_in_height_2', 'skip_round_on_precommits']
     return p
 
 
